@@ -91,3 +91,20 @@ mut("c17-lock-not-released", "C17", "MUST", "hclsyntax/expression.go",
 mut("c17-keep-explicit-unlock", "C17", "KEEP", "hclsyntax/expression.go",
     "\tif e.values == nil {\n\t\treturn\n\t}\n\tif ctx == nil {\n\t\tpanic(\"can't clearValue for a nil EvalContext\")\n\t}\n\tdelete(e.values, ctx)\n}",
     "\tif ctx == nil {\n\t\tpanic(\"can't clearValue for a nil EvalContext\")\n\t}\n\tif e.values != nil {\n\t\tdelete(e.values, ctx)\n\t}\n}", "")
+
+# ---- C15 known ------------------------------------------------------------------------------------
+mut("c15-known-objkey-guard-dropped", "C15", "MUST", "hclsyntax/expression.go",
+    "\t\tif !key.IsKnown() {\n\t\t\tknown = false\n\t\t\tcontinue\n\t\t}\n\n\t\tkeyStr := key.AsString()",
+    "\t\tif !key.IsKnown() {\n\t\t\tknown = false\n\t\t}\n\n\t\tkeyStr := key.AsString()", "known")
+mut("c15-known-shortcircuit-order", "C15", "MUST", "hclsyntax/expression_ops.go",
+    "\t\t\tcase lhs.IsKnown() && lhs.True():\n\t\t\t\treturn cty.True, lhsDiags\n\t\t\tcase rhs.IsKnown() && rhs.True():",
+    "\t\t\tcase lhs.IsKnown() && lhs.True():\n\t\t\t\treturn cty.True, lhsDiags\n\t\t\tcase rhs.True():", "known")
+mut("c15-keep-known-first-case-falls-out", "C15", "KEEP", "hclsyntax/expression_ops.go",
+    "\t\t\t\t// If the LHS has an error, the RHS might too. Don't\n\t\t\t\t// short-circuit so both diags get collected.\n\t\t\t\treturn cty.NilVal, nil\n\n\t\t\t// for ||,",
+    "\n\t\t\t// for ||,", "known")
+mut("c15-known-json-null-guard-continues", "C15", "MUST", "json/structure.go",
+    "\t\t\t\t\tDetail:      \"Cannot use null value as an object key.\",\n\t\t\t\t\tSubject:     &jsonAttr.NameRange,\n\t\t\t\t\tExpression:  valExpr,\n\t\t\t\t\tEvalContext: ctx,\n\t\t\t\t})\n\t\t\t\tcontinue\n",
+    "\t\t\t\t\tDetail:      \"Cannot use null value as an object key.\",\n\t\t\t\t\tSubject:     &jsonAttr.NameRange,\n\t\t\t\t\tExpression:  valExpr,\n\t\t\t\t\tEvalContext: ctx,\n\t\t\t\t})\n", "known")
+mut("c15-keep-known-demorgan", "C15", "KEEP", "hclsyntax/expression_ops.go",
+    "\t\t\tcase !lhs.IsKnown() && rhs.False():\n\t\t\t\treturn cty.UnknownVal(cty.Bool).RefineNotNull(), lhsDiags\n\t\t\tcase !rhs.IsKnown() && lhs.False():\n\t\t\t\treturn cty.UnknownVal(cty.Bool).RefineNotNull(), rhsDiags\n\t\t\t}\n\n\t\t\treturn cty.NilVal, nil\n\t\t},\n\t}\n\tOpLogicalAnd",
+    "\t\t\tcase !(lhs.IsKnown() || !rhs.False()):\n\t\t\t\treturn cty.UnknownVal(cty.Bool).RefineNotNull(), lhsDiags\n\t\t\tcase !(rhs.IsKnown() || !lhs.False()):\n\t\t\t\treturn cty.UnknownVal(cty.Bool).RefineNotNull(), rhsDiags\n\t\t\t}\n\n\t\t\treturn cty.NilVal, nil\n\t\t},\n\t}\n\tOpLogicalAnd", "")
